@@ -151,6 +151,8 @@ func c11TableKeys(p *Prog, r *Report) {
 		})
 		if used && lv.field != "" {
 			validated[lv.field] = true
+			ok, why, pos := membershipShape(iinfo, in.Decl.Body, lv.obj, lv.sel)
+			r.Ob("membership:"+lv.field, p.Pos(pos), ok, "the check of a horizon's texture against the list loaded from "+lv.field+" is a membership test (flag false before the search, set only on equality with a list entry, a run error returned when it is still false, for every horizon of the loaded soil): "+why)
 		}
 	}
 	var fs []string
@@ -164,4 +166,190 @@ func c11TableKeys(p *Prog, r *Report) {
 	if len(fs) < 2 {
 		r.Ob("searched-tables", p.Pos(hy.Decl.Pos()), false, fmt.Sprintf("%d searched parameter tables recognised in Hydro, 2 confirmed (capillary rise, hydraulic parameters)", len(fs)))
 	}
+}
+
+// membershipShape checks the search "flag = false; for … { if X.BART[h] == list[i] { flag = true … } }; if !flag { return error }"
+// inside a loop over every horizon h of the soil whose textures are compared.
+func membershipShape(info *types.Info, body *ast.BlockStmt, listObj types.Object, listSel string) (bool, string, token.Pos) {
+	mentionsList := func(e ast.Expr) bool {
+		found := false
+		ast.Inspect(e, func(m ast.Node) bool {
+			switch t := m.(type) {
+			case *ast.Ident:
+				if listObj != nil && info.Uses[t] == listObj {
+					found = true
+				}
+			case *ast.SelectorExpr:
+				if listSel != "" && t.Sel.Name == listSel {
+					found = true
+				}
+			}
+			return true
+		})
+		return found
+	}
+	var cmp *ast.BinaryExpr
+	ast.Inspect(body, func(n ast.Node) bool {
+		be, ok := n.(*ast.BinaryExpr)
+		if !ok || be.Op != token.EQL || cmp != nil {
+			return true
+		}
+		txt := types.ExprString(be.X) + " " + types.ExprString(be.Y)
+		if strings.Contains(txt, ".BART[") && mentionsList(be) {
+			cmp = be
+		}
+		return true
+	})
+	if cmp == nil {
+		return false, "comparison not found", body.Pos()
+	}
+	path := nodePath(body, cmp)
+	// innermost if whose condition is exactly the comparison
+	var ifs *ast.IfStmt
+	var search ast.Stmt
+	var block *ast.BlockStmt
+	var horizonLoop *ast.ForStmt
+	for i := len(path) - 1; i >= 0; i-- {
+		switch t := path[i].(type) {
+		case *ast.IfStmt:
+			if ifs == nil {
+				ifs = t
+			}
+		case *ast.ForStmt, *ast.RangeStmt:
+			if ifs != nil && search == nil {
+				search = t.(ast.Stmt)
+				if i > 0 {
+					block, _ = path[i-1].(*ast.BlockStmt)
+				}
+			} else if search != nil && horizonLoop == nil {
+				horizonLoop, _ = t.(*ast.ForStmt)
+			}
+		}
+	}
+	if ifs == nil || search == nil || block == nil {
+		return false, "the comparison is not inside 'search loop { if equal { … } }'", cmp.Pos()
+	}
+	if stripParens(ifs.Cond) != ast.Expr(cmp) {
+		return false, "the flag is set under " + types.ExprString(ifs.Cond) + ", not under the equality alone", ifs.Pos()
+	}
+	// the flag: the boolean local assigned true in the if body
+	var flag types.Object
+	for _, st := range ifs.Body.List {
+		if as, ok := st.(*ast.AssignStmt); ok && len(as.Lhs) == 1 && len(as.Rhs) == 1 {
+			if tv, ok := info.Types[as.Rhs[0]]; ok && tv.Value != nil && tv.Value.String() == "true" {
+				flag = useObj(info, as.Lhs[0])
+			}
+		}
+	}
+	if flag == nil {
+		return false, "no flag is set to true on equality", ifs.Pos()
+	}
+	// every other assignment of the flag inside the search loop is absent
+	nIn := 0
+	for _, d := range defsOf(info, search, flag) {
+		_ = d
+		nIn++
+	}
+	if nIn != 1 {
+		return false, fmt.Sprintf("the flag is assigned %d times inside the search loop, expected once (on equality)", nIn), search.Pos()
+	}
+	idx := -1
+	for i, st := range block.List {
+		if st == search {
+			idx = i
+		}
+	}
+	if idx < 0 {
+		return false, "search loop not a statement of its block", search.Pos()
+	}
+	// latest assignment before the loop, in the same block: constant false
+	start := "none"
+	for i := idx - 1; i >= 0 && start == "none"; i-- {
+		ds := defsOf(info, block.List[i], flag)
+		if len(ds) == 0 {
+			continue
+		}
+		start = "other"
+		if as, ok := block.List[i].(*ast.AssignStmt); ok && len(ds) == 1 && len(as.Lhs) == 1 && ds[0].Rhs != nil {
+			if tv, ok := info.Types[ds[0].Rhs]; ok && tv.Value != nil && tv.Value.String() == "false" {
+				start = "false"
+			} else {
+				start = types.ExprString(ds[0].Rhs)
+			}
+		}
+	}
+	if start != "false" {
+		return false, "before the search the flag is " + start + ", must be the constant false", search.Pos()
+	}
+	// the statement after the loop: if !flag { …return error }
+	if idx+1 >= len(block.List) {
+		return false, "nothing follows the search loop", search.End()
+	}
+	after, ok := block.List[idx+1].(*ast.IfStmt)
+	if !ok || after.Init != nil {
+		return false, "the search loop is not followed by the test of the flag", block.List[idx+1].Pos()
+	}
+	neg := false
+	if ue, ok := stripParens(after.Cond).(*ast.UnaryExpr); ok && ue.Op == token.NOT && useObj(info, ue.X) == flag {
+		neg = true
+	}
+	if be, ok := stripParens(after.Cond).(*ast.BinaryExpr); ok && be.Op == token.EQL && useObj(info, be.X) == flag {
+		if tv, ok := info.Types[be.Y]; ok && tv.Value != nil && tv.Value.String() == "false" {
+			neg = true
+		}
+	}
+	if !neg {
+		return false, "the test after the search is " + types.ExprString(after.Cond) + ", must be 'flag is false'", after.Pos()
+	}
+	retErr := false
+	for _, st := range after.Body.List {
+		if rs, ok := st.(*ast.ReturnStmt); ok && len(rs.Results) >= 1 {
+			last := rs.Results[len(rs.Results)-1]
+			if tv, ok := info.Types[last]; ok && !tv.IsNil() && types.Implements(tv.Type, errorType.Underlying().(*types.Interface)) {
+				retErr = true
+			}
+		}
+	}
+	if !retErr {
+		return false, "a texture that is not listed does not return an error", after.Pos()
+	}
+	// horizon loop: for h := 0; h < S.AZHO; h++ with BART[h] of the same S
+	if horizonLoop == nil {
+		return false, "the search is not inside a loop over the horizons", search.Pos()
+	}
+	hv, lo, hi, unit := forHeader(info, horizonLoop)
+	if hv == nil || !unit || lo != "0" {
+		return false, "the horizon loop is not 'for h := 0; h < count; h++'", horizonLoop.Pos()
+	}
+	var bart *ast.IndexExpr
+	ast.Inspect(cmp, func(m ast.Node) bool {
+		if ie, ok := m.(*ast.IndexExpr); ok && strings.HasSuffix(types.ExprString(ie.X), ".BART") {
+			bart = ie
+		}
+		return true
+	})
+	if bart == nil || useObj(info, bart.Index) != hv {
+		return false, "the compared texture is not the one of the loop's horizon", cmp.Pos()
+	}
+	soil := strings.TrimSuffix(types.ExprString(bart.X), ".BART")
+	if hi != soil+".AZHO" {
+		return false, "the horizon loop runs to " + hi + ", must be the horizon count " + soil + ".AZHO of the soil whose textures are compared", horizonLoop.Pos()
+	}
+	return true, "yes", cmp.Pos()
+}
+
+// forHeader recognises for v := lo; v < hi; v++ and returns v, lo and hi as text.
+func forHeader(info *types.Info, f *ast.ForStmt) (types.Object, string, string, bool) {
+	as, ok := f.Init.(*ast.AssignStmt)
+	if !ok || len(as.Lhs) != 1 || len(as.Rhs) != 1 {
+		return nil, "", "", false
+	}
+	v := useObj(info, as.Lhs[0])
+	be, ok := f.Cond.(*ast.BinaryExpr)
+	if v == nil || !ok || be.Op != token.LSS || useObj(info, be.X) != v {
+		return nil, "", "", false
+	}
+	inc, ok := f.Post.(*ast.IncDecStmt)
+	unit := ok && inc.Tok == token.INC && useObj(info, inc.X) == v
+	return v, types.ExprString(as.Rhs[0]), types.ExprString(be.Y), unit
 }
